@@ -42,3 +42,9 @@ manifest = {
 }
 json.dump(manifest, open(os.path.join(ROOT, "MANIFEST.json"), "w"), indent=1)
 print("MANIFEST.json written:", len(checks), "checks,", len(NOT_APPLICABLE), "not applicable")
+
+# aggregate view of the known findings (the source of truth is known_findings/*.json)
+import glob
+kf = [json.load(open(f)) for f in sorted(glob.glob(os.path.join(ROOT, "known_findings", "*.json")))]
+json.dump({"comment": "GENERATED aggregate of known_findings/*.json (one file per finding; status=known: the check prints KNOWN-FINDING and does not fail; status=fixed: suppresses nothing). Keyed by the oracle's stable violation kind + detail_regex.", "findings": kf},
+          open(os.path.join(ROOT, "known_findings.json"), "w"), indent=1, ensure_ascii=False)
